@@ -274,10 +274,12 @@ func segments(t *tnode, lo, hi, base int, out *[]seg) {
 // hazard reports whether a read of n bytes at off in t enters some part strictly
 // inside, extends beyond that part's end, and the part's referent continues after the
 // part's end ("part shorter than its blob / bytes").  It returns "", "blob" or "bytes".
+//
+// n is the length the reader implementation is asked for at this level: the caller's
+// buffer length for ReadAt (a read that starts inside the last part and asks for more
+// than the file has "extends beyond" that part too), the length clipped to the end of
+// the file for Read (io.SectionReader clips).
 func hazard(t *tnode, off, n int) string {
-	if off+n > len(t.den) {
-		n = len(t.den) - off
-	}
 	pos := 0
 	for _, p := range t.parts {
 		s, e := pos, pos+p.size
@@ -483,7 +485,7 @@ func runTree(r *ev.Run, id string, idx int) {
 	if len(root.parts) >= 2 || root.depth > 1 || (len(root.parts) == 1 && root.parts[0].off > 0) {
 		r.Distinct("tree/" + root.ref.String())
 	}
-	if idx <= 2 {
+	if idx <= 1 {
 		r.Sample(map[string]any{"kind": "tree", "case": tc, "denotes": show(want)})
 	}
 
@@ -688,7 +690,7 @@ func runTree(r *ev.Run, id string, idx int) {
 			avail := min(l, size-pos)
 			okN := n == avail || (!full && n >= 1 && n <= avail)
 			if !okN || !bytes.Equal(buf[:min(max(n, 0), avail)], want[pos:pos+min(max(n, 0), avail)]) {
-				viol(classify("seek", pos, l), strings.Join(trace, "; "), "returned %d bytes %s (err=%v), the schema denotes %s there", n, show(buf[:max(n, 0)]), err, show(want[pos:pos+avail]))
+				viol(classify("seek", pos, avail), strings.Join(trace, "; "), "returned %d bytes %s (err=%v), the schema denotes %s there", n, show(buf[:max(n, 0)]), err, show(want[pos:pos+avail]))
 				break
 			}
 			if err != nil && !(errors.Is(err, io.EOF) && pos+n == size) && !(full && n < l && errors.Is(err, io.ErrUnexpectedEOF)) {
@@ -725,7 +727,7 @@ func runTree(r *ev.Run, id string, idx int) {
 			}
 			avail := min(bs, size-pos)
 			if n < 1 || n > avail || !bytes.Equal(buf[:n], want[pos:pos+n]) {
-				viol(classify("sequential", pos, bs), fmt.Sprintf("sequential Read(len=%d) at position %d", bs, pos), "returned %d bytes %s (err=%v), the schema denotes %s there", n, show(buf[:min(max(n, 0), bs)]), err, show(want[pos:pos+avail]))
+				viol(classify("sequential", pos, avail), fmt.Sprintf("sequential Read(len=%d) at position %d", bs, pos), "returned %d bytes %s (err=%v), the schema denotes %s there", n, show(buf[:min(max(n, 0), bs)]), err, show(want[pos:pos+avail]))
 				break
 			}
 			if err != nil && !(errors.Is(err, io.EOF) && pos+n == size) {
